@@ -98,7 +98,9 @@ func newMACTable() MACTable {
 // PrintTable prints the table to stdout
 func (h *Session) printMACTable() {
 	for _, v := range h.MACTable.Table {
+		v.Row.RLock() // entry fields are written under the row lock
 		fmt.Printf("mac %s\n", v)
+		v.Row.RUnlock()
 	}
 }
 
